@@ -672,6 +672,45 @@ func c19OnlyIfPaths(c *Ctx, fn *ssa.Function, sel *ssa.Select, st *ssa.SelectSta
 			}
 		}
 	}
+	// ... and a subscription whose mask intersects the change always reaches the loop over its channels:
+	// nothing between the mask test and the sends (a remembered last value, a rate limit) may skip it
+	if sel != nil && sel.Block() != nil {
+		var chHdr *ssa.BasicBlock
+		for b := sel.Block(); b != nil; b = b.Idom() {
+			isHdr := false
+			for _, pr := range b.Preds {
+				if b.Dominates(pr) {
+					isHdr = true
+				}
+			}
+			if isHdr {
+				chHdr = b
+				break
+			}
+		}
+		if chHdr != nil {
+			for _, entry := range entries {
+				for _, p := range c.pathsO("R-C19-3", entry, an.PathOpts{EmitCut: true}) {
+					if !p.Cut || p.CutTo == chHdr || sel.Parent() != p.CutTo.Parent() {
+						continue
+					}
+					matched := false
+					for _, a := range p.Atoms {
+						x, y, op, ok := effCmp(a)
+						if !ok || op != token.NEQ || x.Op != an.OpBin || x.Tok != token.AND {
+							continue
+						}
+						if k, isC := y.ConstInt(); isC && k == 0 {
+							matched = true
+						}
+					}
+					if matched && !p.Visited(chHdr) {
+						skipFact = "a subscription whose mask intersects the change is skipped before its channels are visited (under " + lastAtomName(p) + ")"
+					}
+				}
+			}
+		}
+	}
 	if why == "" && nSeen >= 1 {
 		c.R.Check(skipFact == "" && changesHdr != nil, "R-C19-3", c.fname(fn)+":every-change-offered", c.fname(fn), c.pos(sel.Pos()),
 			func() string {
